@@ -59,6 +59,15 @@ theorem C19_nj_leaves (n : Nat) (D : Nat → Nat → Rat) (t : T Rat) (h : neigh
     t.leaves.Perm (List.range n) :=
   nj_leaves n D t h
 
+/-- **Neighbour joining always returns a tree.**  For every matrix that passes the input checks
+(symmetric by `allclose`, `n ≥ 4`, no negative entry — zero distances, identical taxa and every tie
+included) the result is `ok`: the minimum search accepts its first live candidate (`dist_min`
+starts at `MAX_FLOAT`, modelled as "no candidate yet"), so with ≥ 3 live positions a pair is always
+found and the loop ends in the three-way join, never in the "all clustered" `break` (Python `None`). -/
+theorem C19_nj_total (n : Nat) (D : Nat → Nat → Rat) (h1 : allcloseSym n D = true) (h2 : 4 ≤ n)
+    (h3 : anyNegative n D = false) : ∃ t, neighborJoining n D = .ok t :=
+  nj_total n D h1 h2 h3
+
 /-- The minimum search returns a live pair `j < i < n` whose entry is minimal among all live
 pairs (first such pair in scan order because the comparison is strict). -/
 theorem C19_scan_min (val : Nat → Nat → Rat) (cl : Nat → Bool) (n : Nat) (m : Rat) (i j : Nat)
@@ -172,6 +181,9 @@ example : Good exampleD (.node (.cons 2 (.leaf 2) (.cons 1 (.node (.cons 1 (.lea
   refine ⟨0, 1, rfl, ⟨0, 0, rfl, rfl, by norm_num, by norm_num, ?_⟩, by norm_num, by norm_num, ?_⟩
   · simp [avg, pairSum, T.leaves, F.leaves, exampleD]
   · simp [avg, pairSum, T.leaves, F.leaves, exampleD]; norm_num
+/-- All taxa identical: the hypotheses of `C19_nj_total` hold and the loop returns all five leaves. -/
+example : allcloseSym 5 (fun _ _ => 0) = true ∧ anyNegative 5 (fun _ _ => 0) = false ∧
+    (njLoop 5 5 (NState.init 5 (fun _ _ => 0))).map (fun t => t.leaves.length) = some 5 := by decide +kernel
 example : scanMin exampleD (fun _ => false) 3 = some (2, 1, 0) := by decide +kernel
 example : (T.node (.cons (1 : Rat) (.leaf 2) (.cons 1 (.node (.cons 1 (.leaf 1) (.cons 1 (.leaf 0) .nil))) .nil))).leaves
     = [2, 1, 0] := by decide
